@@ -8,6 +8,9 @@
 (*   IF c THEN .. [ELSEIF c THEN ..] [ELSE ..] END IF                      *)
 (*   WHILE c DO .. END WHILE | BREAK | CONTINUE | EXIT                     *)
 (*   DECLARE f FUNCTION (@p) AS BEGIN .. END | RETURN e | f(e) in exprs    *)
+(*   DECLARE c CURSOR FOR SELECT v | OPEN c; FETCH c INTO @x; CLOSE c |    *)
+(*   DISPOSE CURSOR c | DECLARE t VIEW (n) AS SELECT v | (SELECT n FROM t) *)
+(*   in exprs | DISPOSE TABLE t                                            *)
 (*                                                                         *)
 (* State st = [blocks, out]: blocks is the scope chain, innermost first;   *)
 (* each block maps variable names to values and function names to          *)
@@ -21,7 +24,8 @@ EXTENDS Integers, Sequences, FiniteSets, TLC
 
 Null == -1000                        \* the NULL value (values are small integers)
 NoVars == [x \in {} |-> 0]
-Block(vs, fs) == [vars |-> vs, funs |-> fs]
+\* a block: variables, functions, cursors (name -> the value its query yields) and temporary tables (name -> value)
+Block(vs, fs) == [vars |-> vs, funs |-> fs, curs |-> NoVars, tabs |-> NoVars]
 EmptyBlock == Block(NoVars, NoVars)
 
 Txt(v) == IF v = Null THEN "NULL" ELSE ToString(v)
@@ -29,6 +33,9 @@ Txt(v) == IF v = Null THEN "NULL" ELSE ToString(v)
 \* index of the innermost block declaring variable x (0 = none)
 RECURSIVE FindVar(_, _, _)
 FindVar(blocks, x, i) == IF i > Len(blocks) THEN 0 ELSE IF x \in DOMAIN blocks[i].vars THEN i ELSE FindVar(blocks, x, i + 1)
+RECURSIVE FindCur(_, _, _), FindTab(_, _, _)
+FindCur(blocks, c, i) == IF i > Len(blocks) THEN 0 ELSE IF c \in DOMAIN blocks[i].curs THEN i ELSE FindCur(blocks, c, i + 1)
+FindTab(blocks, t, i) == IF i > Len(blocks) THEN 0 ELSE IF t \in DOMAIN blocks[i].tabs THEN i ELSE FindTab(blocks, t, i + 1)
 RECURSIVE FindFun(_, _, _)
 FindFun(blocks, f, i) == IF i > Len(blocks) THEN 0 ELSE IF f \in DOMAIN blocks[i].funs THEN i ELSE FindFun(blocks, f, i + 1)
 
@@ -57,6 +64,9 @@ Eval(e, st, fuel) ==
               ELSE IF a.v = Null \/ b.v = Null THEN Flow(b.st, "next", Null)
               ELSE IF e.k = "add" THEN Flow(b.st, "next", a.v + b.v)
               ELSE Flow(b.st, "next", IF a.v < b.v THEN 1 ELSE 0)
+    [] e.k = "tab" ->      \* (SELECT n FROM t): the innermost temporary table of that name
+         LET i == FindTab(st.blocks, e.t, 1) IN
+         IF i = 0 THEN Fail(st, "FileNotExist") ELSE Flow(st, "next", st.blocks[i].tabs[e.t])
     [] e.k = "call" ->
          LET a == Eval(e.a, st, fuel) IN
          IF a.flow # "next" THEN a ELSE Call(e.f, a.v, a.st, fuel)
@@ -130,6 +140,24 @@ Exec(s, st, fuel) ==
     [] s.k = "exit" -> Flow(st, "exit", Null)
     [] s.k = "return" ->
          LET r == Eval(s.e, st, fuel) IN IF r.flow # "next" THEN r ELSE Flow(r.st, "return", r.v)
+    [] s.k = "curdecl" ->  \* DECLARE c CURSOR FOR SELECT v : in the innermost block; the same block cannot hold two of a name
+         IF s.c \in DOMAIN st.blocks[1].curs THEN Fail(st, "CursorRedeclared")
+         ELSE Ok([st EXCEPT !.blocks[1].curs = (s.c :> s.v) @@ @])
+    [] s.k = "curuse" ->   \* OPEN c; FETCH c INTO @x; CLOSE c : the innermost cursor of that name gives its value to @x
+         LET i == FindCur(st.blocks, s.c, 1)  j == FindVar(st.blocks, s.x, 1) IN
+         IF i = 0 THEN Fail(st, "UndeclaredCursor")
+         ELSE IF j = 0 THEN Fail(st, "UndeclaredVariable")
+         ELSE Ok([st EXCEPT !.blocks[j].vars[s.x] = st.blocks[i].curs[s.c]])
+    [] s.k = "curdispose" ->
+         LET i == FindCur(st.blocks, s.c, 1) IN
+         IF i = 0 THEN Fail(st, "UndeclaredCursor") ELSE Ok([st EXCEPT !.blocks[i].curs = Remove(@, s.c)])
+    [] s.k = "tabdecl" ->  \* DECLARE t VIEW (n) AS SELECT v
+         \* st.ns (deviation, see Run): the name may not be in use in ANY enclosing block - no shadowing of temporary tables
+         IF (IF st.ns THEN FindTab(st.blocks, s.t, 1) # 0 ELSE s.t \in DOMAIN st.blocks[1].tabs) THEN Fail(st, "TemporaryTableRedeclared")
+         ELSE Ok([st EXCEPT !.blocks[1].tabs = (s.t :> s.v) @@ @])
+    [] s.k = "tabdispose" ->
+         LET i == FindTab(st.blocks, s.t, 1) IN
+         IF i = 0 THEN Fail(st, "UndeclaredTemporaryTable") ELSE Ok([st EXCEPT !.blocks[i].tabs = Remove(@, s.t)])
     [] s.k = "func" ->     \* DECLARE f FUNCTION (@p) AS BEGIN body END
          IF s.f \in DOMAIN st.blocks[1].funs THEN Fail(st, "FunctionRedeclared")     \* same block only: inner blocks may shadow
          ELSE Ok([st EXCEPT !.blocks[1].funs = (s.f :> [p |-> s.p, body |-> s.body]) @@ @])
@@ -140,11 +168,14 @@ ExecList(ss, st, fuel) ==
        IF r.flow # "next" THEN r ELSE ExecList(Tail(ss), r.st, fuel)
 
 \* a whole procedure: what it prints and how it ends
-Run(prog, fuel) ==
-  LET r == ExecList(prog, [blocks |-> <<EmptyBlock>>, out |-> <<>>], fuel) IN
+\* ns = FALSE: the property as stated (a temporary table declared in a block shadows an outer one of the same name);
+\* ns = TRUE: what csvq does instead - DECLARE .. VIEW refuses a name that is in use in any enclosing block
+RunNS(prog, fuel, ns) ==
+  LET r == ExecList(prog, [blocks |-> <<EmptyBlock>>, out |-> <<>>, ns |-> ns], fuel) IN
   [out |-> r.st.out,
    end |-> CASE r.flow = "error" -> r.err [] r.flow = "fuel" -> "FUEL" [] OTHER -> "ok",
    depth |-> Len(r.st.blocks)]
+Run(prog, fuel) == RunNS(prog, fuel, FALSE)
 
 -----------------------------------------------------------------------------
 (* Properties of the semantics, checked on every generated program            *)
